@@ -70,7 +70,7 @@ def check_zero_tests(rep, g, ev, label):
         e = ev.at(n)
         if e is None:
             continue
-        if e[0] == 'READ' or (e[0] == 'WRITE' and e[1] in ("poll_write", "poll_write_vectored")):
+        if e[0] == 'READ' or (e[0] == 'WRITE' and e[1] in ("poll_write", "poll_write_vectored", "await_count")):
             polls[(n.frame.id, n.bb)] = n
 
     # facts: ('NZ', frame id, bb) = "the count produced at that site has been compared with zero (non-zero edge)"
